@@ -456,6 +456,15 @@ func genQuery(r *core.Rand, u Unit, pats, focus []Seq, cut bool) string {
 		}
 		return GenText(r, u, pats, 12)
 	}
+	if r.Chance(6) {
+		// the previous result (the last string of the last non-empty list) is fed back in
+		return []string{"match", "findall", "prefix", "fuzzy"}[r.Pick(15, 35, 25, 25)] + " ^"
+	}
+	if r.Chance(3) {
+		// an independent second trie (copy of the zero value) between two calls on this one
+		p := RandSeq(r, u, 1, 3)
+		return "sibling " + Hex(p.Bytes()) + " " + Hex(append(append(RandSeq(r, u, 0, 2), p...), p...).Bytes())
+	}
 	switch r.Pick(18, 34, 28, 20) {
 	case 0:
 		// sparser texts for Match so that `false` and "only a nested pattern occurs" are common
@@ -480,6 +489,15 @@ func genQuery(r *core.Rand, u Unit, pats, focus []Seq, cut bool) string {
 func genHistory(r *core.Rand, tier string) core.Case {
 	pats, u, later := HistoryBase(r)
 	lines := []string{Header("C05", SeqsBytes(pats))}
+	if r.Chance(6) {
+		// Insert… without BuildFailureLinks: queries meet nil failure links (outside the
+		// property, not judged; a panic is recovered), then the first build comes late
+		lines[0] = strings.Replace(lines[0], " trie", " raw", 1)
+		for n := r.Range(1, 2); n > 0; n-- {
+			lines = append(lines, genQuery(r, u, pats, nil, false))
+		}
+		lines = append(lines, "build")
+	}
 	if r.Chance(40) && DumpAvailable() {
 		lines = append(lines, "dump")
 	}
@@ -497,6 +515,14 @@ func genHistory(r *core.Rand, tier string) core.Case {
 		}
 		for _, p := range newp {
 			lines = append(lines, "insert "+Hex(p.Bytes()))
+		}
+		if len(newp) > 0 && r.Chance(25) {
+			// queries before the rebuild: not judged; a panic is recovered and the build
+			// that follows must leave the trie as good as freshly built
+			all := append(append([]Seq{}, pats...), newp...)
+			for n := r.Range(1, 2); n > 0; n-- {
+				lines = append(lines, genQuery(r, u, all, focus, false))
+			}
 		}
 		lines = append(lines, "build")
 		pats = append(pats, newp...)
